@@ -14,7 +14,7 @@ from vlib.runner import mkres
 ID = 'C18'
 AF4, AF6 = int(socket.AF_INET), int(socket.AF_INET6)
 V4S = ['192.0.2.10', '10.1.2.3', '127.0.0.1', '203.0.113.255']
-V6S = ['2001:db8::1', '::1', 'fe80::1234:5678:9abc:def0', '2001:0db8:0000:0000:0000:ff00:0042:8329', '2001:db8:0:0:1:0:0:1']
+V6S = ['2001:db8::1', '::1', 'fe80::1234:5678:9abc:def0', '2001:0db8:0000:0000:0000:ff00:0042:8329', '2001:db8:0:0:1:0:0:1', '1:2:3:4:5:6:7::', '::2:3:4:5:6:7:8', '2001:db8::', '::ffff:192.0.2.128']
 NAMES = ['host.example', 'srv-01', 'a.b.c.example.org', 'localhost', 'xn--nxasmq6b.example']
 
 
@@ -126,6 +126,7 @@ def eval_case(case):
             fails.append([sig, 'argv %r: getaddrinfo(%r)' % (argv, h)])
     # connection attempts: right address, family and port
     by_target = {}
+    audit_conns = {}
     for sid, af, ip, port, nb in net.connects:
         owner = None
         for t in targets:
@@ -138,6 +139,8 @@ def eval_case(case):
         if af not in allowed:
             fails.append(['connection-with-excluded-family', 'argv %r: family %d' % (argv, af)])
         by_target.setdefault(owner['text'], []).append(af)
+        if not nb:
+            audit_conns.setdefault(owner['text'], []).append(af)
         if af in (AF4, AF6) and fam in ('-46', '-64'):
             pass
     for t in targets:
@@ -150,6 +153,9 @@ def eval_case(case):
             pref = AF4 if fam == '-46' else AF6
             if got[0] != pref:
                 fails.append(['preferred-family-not-tried-first', 'argv %r: first attempt family %d, preferred %d' % (argv, got[0], pref)])
+            elif any(a != pref for a in audit_conns.get(t['text'], [])):     # (the rate check dials a single address; only family membership is required there)
+                # each later connection (host-key / group-exchange probes) is a first attempt again
+                fails.append(['preferred-family-not-used-by-later-connections', 'argv %r: families of the audit connections %r, preferred %d' % (argv, audit_conns.get(t['text']), pref)])
     # labels
     if case['json']:
         try:
